@@ -48,7 +48,15 @@ func init() {
 		{"control.Unmarshal(probe)", "codecu", typedPre("codecu", "ProbeBasic"), func(r *core.Rand) string {
 			return "Name: x\nCount: 3\nReq: y\nCommas: a, b\nVer: 1.0-1\nDepends: foo (>= 1) | bar\nArch: amd64\nChecksums-Sha256:\n " + strings.Repeat("a", 64) + " 5 f\nReq-Commas: a\nReq-Versions: 1,2\n"
 		}},
-		{"changelog.Parse", "changelog", nil, func(r *core.Rand) string { return renderClEntry(r, genClEntry(r)) }},
+		{"changelog.Parse", "changelog", nil, func(r *core.Rand) string {
+			t := renderClEntry(r, genClEntry(r))
+			if i := strings.LastIndex(t, " +"); i > 0 && r.Chance(1, 4) {
+				// a date that names its zone: whatever the parser does with it does not depend on
+				// the process's local zone (the harness runs in a named, non-UTC one)
+				t = t[:i+1] + r.Pick([]string{"EST", "CET", "UTC", "PST", "GMT"}) + "\n"
+			}
+			return t
+		}},
 	}
 	// all adapters this property drives
 	for k, v := range versionImpl {
